@@ -377,6 +377,20 @@ func closerManager(s *simrt.Sim) {
 		runRet = s.Stamp()
 	})
 	names = append(names, "run")
+	// an Add that races Run: either it is refused, or the runner is started and waited for like every other
+	// (and Close still ends the run)
+	var racer *unit
+	var racerErr error
+	if scenario != 2 && s.Choose(3, "addrace") == 0 {
+		racer = mkUnit(s, 10, false)
+		at := []time.Duration{0, 0, delays[1]}[s.Choose(3, "addraceAt")]
+		names = append(names, "addrace")
+		s.Go("addrace", func() {
+			s.Sleep(at)
+			racerErr = m.Add(racer.runner(s))
+			s.Logf("add racing Run -> %v", racerErr)
+		})
+	}
 	switch scenario {
 	case 1:
 		doClose("close1", delays[s.Choose(len(delays), "closeAt")])
@@ -436,6 +450,16 @@ func closerManager(s *simrt.Sim) {
 	}
 	ran = true
 	_, _ = ran, runInv
+	if racer != nil {
+		switch {
+		case racerErr == nil:
+			runners = append(runners, racer) // accepted: it is one of the manager's runners
+		case !errors.Is(racerErr, concurrency.ErrManagerAlreadyStarted):
+			s.Fail("add-error", fmt.Sprintf("Add racing Run returned %v", racerErr))
+		case racer.starts != 0:
+			s.Fail("rejected-runner-started", "Add racing Run was refused but the runner was started")
+		}
+	}
 	var lastRunner uint64
 	for _, u := range runners {
 		if u.starts != 1 {
